@@ -123,6 +123,8 @@ def build_world(ws):
         da = build_array(a, sizes)
         if a.get("coords", True):
             da = da.assign_coords({d: w.ds[d] for d in da.dims if d in w.ds.coords})
+        if a.get("self_coord"):
+            da = da.assign_coords({da.dims[0]: (da.dims[0], np.asarray(da.values), {"axis": "Z"})})
         w.arrays.append(da)
     w.nps = [np.asarray(n, dtype="float64") for n in ws.get("nps", [])]
     w.maps = []
@@ -571,14 +573,16 @@ def gen_simple_world(rng):
         d = cdims(t=False)
         arrays.append({"dims": d, "data": {"gen": "mono", "dim": "zc", "seed": rng.randrange(10**6),
                                             "decreasing": rng.random() < 0.3, "positive": True},
-                       "name": None if rng.random() < 0.6 else "theta"})
+                       "name": None if rng.random() < 0.6 else "theta",
+                       "attrs": {"units": "kg m-3", "long_name": "density"} if rng.random() < 0.7 else {}})
         idx["td_c"] = len(arrays) - 1
         d = cdims(zpos="zo", t=False)
         arrays.append({"dims": d, "data": {"gen": "mono", "dim": "zo", "seed": rng.randrange(10**6), "positive": True},
                        "name": None if rng.random() < 0.5 else "theta_o"})
         idx["td_o"] = len(arrays) - 1
         arrays.append({"dims": ["lev"], "sizes": {"lev": 4}, "data": {"gen": "list", "v": [2.5, 1.0, 4.0, 9.5]},
-                       "name": "lev", "coords": False})
+                       "name": rng.choice(["lev", "sigma"]), "coords": False, "self_coord": rng.random() < 0.7,
+                       "attrs": {"positive": "down"}})
         idx["lev"] = len(arrays) - 1
     nps = [[1.5, 3.0, 2.0, 8.0], [0.0, 2.0, 5.0, 40.0]]
     bnd_words = ["fill", "extend", "periodic"]
